@@ -439,6 +439,25 @@ def install(I: Interp, fs: dict):
     M[("Col", "replace")] = col_map(c_replace)
     M[("Col", "fillna")] = col_map(lambda I, v, a, k, n: a[0] if v is NAN else v)
 
+    def c_astype(I, c, a, k, n):
+        t = a[0] if a else k.get("dtype")
+        t = t if isinstance(t, str) else getattr(t, "dotted", str(t))
+        if any(x in t for x in ("int", "float")):
+            vals = [Num.const(int(v)) if isinstance(v, bool) else v for v in c.values]
+            if any(v is NAN for v in vals) and "int" in t:
+                raise I.fault("ValueError", n, "cannot convert NA to integer")
+            return Col(vals, c.name, t)
+        return Col(list(c.values), c.name, t)
+    M[("Col", "astype")] = c_astype
+
+    def c_first_valid(I, c, a, k, n):
+        for i, v in enumerate(c.values):
+            if v is not NAN and v is not None:
+                return Num.const(i)
+        return None
+    M[("Col", "first_valid_index")] = c_first_valid
+    A[("MiniFrame", "index")] = lambda I, f, n: Col([Num.const(i) for i in range(f.nrows)], "index", "int64")
+
     def c_apply(I, c, a, k, n):
         return Col([I.call_value(a[0], [v], {}, n) for v in c.values], c.name, c.dtype)
     M[("Col", "apply")] = c_apply
